@@ -61,7 +61,7 @@ func (model *ProtDistModel) MLDist(a align.Alignment, weights []float64) (p, q, 
 			checkAmbiguities(&pair, 1)
 			// If sequences are different (avoid ambiguities), compute distance
 			// Else distance = 0
-			if check2SequencesDiff(&pair) {
+			if check2SequencesDiff(&pair, selected) {
 				//Hide_Ambiguities(pair)
 				init = dist.At(j, k)
 
